@@ -7,15 +7,18 @@ CONSTANTS
   MaxBg = 1
   MaxLosses = 1
   MaxLogins = 1
+  SlowScan = {FALSE}
   Env = {"exec", "peerin", "userdisc", "midburst"}
   MaxConnFail = 0
   FixAutoJoin = TRUE
   FixDistStopped = TRUE
   FixWatchdogStopped = TRUE
+  FixCancelFirst = TRUE
   FixTimersStopped = TRUE
   FixStaleInit = TRUE
   FixSelfAwait = FALSE
   FixQueueOnce = TRUE
+  FixScanStopped = TRUE
 INVARIANT TypeOK
 INVARIANT AdvertisedOnly
 INVARIANT AdvertisedExactly
